@@ -13,39 +13,13 @@ ERROR awkward_ListOffsetArray_reduce_nonlocal_outstartsstops_64(
   int64_t outlength) {
   int64_t maxcount = (outlength == 0 ? 0 : lendistincts / outlength);
 
-  int64_t j = 0;
-  int64_t k = 0;
-  int64_t maxdistinct = -1;
-  int64_t lasti = -1;
-  for (int64_t i = 0;  i < lendistincts;  i++) {
-    if (maxdistinct < distincts[i]) {
-      maxdistinct = distincts[i];
-
-      int64_t extra = (i - lasti)/maxcount;
-      lasti = i;
-
-      int64_t numgappy = gaps[j];
-      if (numgappy < extra) {
-        numgappy = extra;
-      }
-
-      for (int64_t gappy = 0;  gappy < numgappy;  gappy++) {
-        outstarts[k] = i;
-        outstops[k] = i;
-        k++;
-      }
-      j++;
+  for (int64_t k = 0;  k < outlength;  k++) {
+    int64_t n = 0;
+    while (n < maxcount  &&  distincts[k*maxcount + n] != -1) {
+      n++;
     }
-
-    if (distincts[i] != -1) {
-      outstops[k - 1] = i + 1;
-    }
+    outstarts[k] = k*maxcount;
+    outstops[k] = k*maxcount + n;
   }
-
-  for (;  k < outlength;  k++) {
-    outstarts[k] = lendistincts + 1;
-    outstops[k] = lendistincts + 1;
-  }
-
   return success();
 }
